@@ -46,8 +46,10 @@ def default_behaviours(chk, per_config=None):
     n = per_config or (1500 if thorough else 120)
     rng = random.Random(vf.seed())
     out = []
-    plan = [("ckp-basic", "basic", 8, 2 if thorough else 1), ("ckp-votes", "votes", 10, 2 if thorough else 1),
-            ("ckp-cancel", "cancel", 12, 2 if thorough else 1), ("ckp-penalty", "penalty", 11, 1)]
+    # thorough: two items per block after the basic prelude, one more free block after the others (two items per
+    # block after the votes / cancel preludes did not finish within the time limit once amounts were made distinct)
+    plan = [("ckp-basic", "basic", 8, 2 if thorough else 1), ("ckp-votes", "votes", 11 if thorough else 10, 1),
+            ("ckp-cancel", "cancel", 13 if thorough else 12, 1), ("ckp-penalty", "penalty", 12 if thorough else 11, 1)]
     for label, prelude, maxh, items in plan:
         r = dc.tlc_run(chk, label, prelude, dc.ALL_KINDS, maxh, items, 1, emit="Emit", workers=1,
                        checkpoint=(label == "ckp-basic"))
